@@ -4,8 +4,9 @@
   only measures time).
 
   Replies are token LISTS, not reply trees: `EXEC` writes `*len(cmds)` first and then whatever the
-  queued commands write, stopping at the first one whose `Run` returns an error, so fewer elements
-  than announced can follow (D12). The tables are rolled back in that case (`db.Update`).
+  queued commands write. Every queued command runs and writes its reply, also after one of them has
+  failed (D12, repaired: the loop used to stop at the first failing command, so fewer elements than
+  announced followed); the first error is returned at the end and `db.Update` rolls the tables back.
   Core Lean only.
 -/
 import RedkaModel.Model.Wire.Cmd.Parse
@@ -83,17 +84,17 @@ structure QueueRes where
   failed : Bool
   ood : Bool
 
-/-- `for _, pcmd := range state.cmds { _, err := pcmd.Run(conn, redis.RedkaTx(tx)); if err != nil { return err } }` -/
+/-- `var failed error; for _, pcmd := range state.cmds { _, err := pcmd.Run(conn, redis.RedkaTx(tx)); if err != nil && failed == nil { failed = err } }; return failed` -/
 def runQueue : List ParsedCmd → Int → DB → List Token → Nat → QueueRes
   | [], _, db, _, _ => { segs := [], db := db, failed := false, ood := false }
   | c :: cs, now, db, obs, pos =>
     let r := run c (Model.tx true) now db (oracleAt obs pos)
     let seg : Seg := { toks := r.toks, bag := r.bag }
     if r.ood then { segs := [], db := db, failed := false, ood := true }
-    else if r.failed then { segs := [seg], db := r.db, failed := true, ood := false }
     else
+      -- a failing command does not end the loop: the first error is remembered and returned at the end
       let q := runQueue cs now r.db obs (pos + r.toks.length)
-      { q with segs := seg :: q.segs }
+      { q with segs := seg :: q.segs, failed := r.failed || q.failed }
 
 /-- `handleMulti`: the whole queue inside ONE `db.Update`; the error is only logged -/
 def handleMulti (st : ConnState) (db : DB) (now : Int) (obs : List Token) (pos : Nat) : Out :=
